@@ -66,7 +66,13 @@ def verify_functions(rep: core.Report, module_names, quals, classes, prop=None, 
                             "size": ob.size, "kind": ob.kind})
         f = rep.functions.get(ob.function, {})
         f["discharged"] = f.get("discharged", 0) + (1 if verdict == "discharged" else 0)
-        if verdict == "refuted":
+        if verdict == "refuted-bounded":
+            # counter-model found only by the ground search over a bounded universe of names: a candidate that
+            # becomes a violation only when a bounded group of the same property exhibits a failing input
+            rep.candidates.append({"key": f"E1:{ob.name}", "what": f"obligation {ob.name}: counter-model candidate ({be})",
+                                   "payload": {"engine": "E1", "obligation": ob.name, "function": ob.function, "path": ob.trace[-12:],
+                                               "solver_output": model, "no_failing_input": True}})
+        elif verdict == "refuted":
             rep.add_violation(
                 f"E1:{ob.name}", f"obligation {ob.name} refuted by {be}",
                 {"engine": "E1", "obligation": ob.name, "function": ob.function, "path": ob.trace[-12:],
